@@ -91,8 +91,12 @@ def run_modules(modnames, jobs=None, only=None):
     import importlib
     tasks = []
     for m in modnames:
+        # "package.module:substring" selects the scenarios of that module whose name contains the substring
+        m, _, sel = m.partition(":")
         mod = importlib.import_module(m)
         for i, sc in enumerate(mod.SCENARIOS):
+            if sel and sel not in sc.name:
+                continue
             if only and not any(o in sc.name for o in only):
                 continue
             tasks.append((m, i))
